@@ -315,7 +315,7 @@ def converge(n: int) -> bool:
     # 3: `db create`.  The run is killed at effect boundary k (torn: in the middle of effect k, a file write); the same
     # command then runs again and must complete and leave index and files in agreement, as an uninterrupted run would.
     # The solver chooses n; the real code then runs concretely for that choice (a traced run costs ~0.5 s per path here).
-    n = conc_bits(n, 15)
+    n = conc_bits(n, len(ADM).bit_length())
     with NoTracing():
         s0, s1, mode, k, torn = ADM[n]
         return V(_converge(s0, s1, mode, k, torn) == "")
@@ -370,7 +370,7 @@ def kf_1(n: int) -> bool:
     post: _
     """
     # complementary query of KF-C13-1: ONLY crash points satisfying the finding's predicate
-    n = conc_bits(n, 15)
+    n = conc_bits(n, len(ADM).bit_length())
     with NoTracing():
         s0, s1, mode, k, torn = ADM[n]
         if torn or mode == 3:
